@@ -489,3 +489,296 @@ Proof.
     + rewrite subset_eq. unfold satisfies. rewrite M. unify_filters gf180_xtors; reflexivity.
   - (* Asap7 *) rewrite find_filter. unify_filters asap7_mos_modules; reflexivity.
 Qed.
+
+(* ---------------------------------------------------------------- no internal lookup failure escapes *)
+Definition has {B} (n : string) (t : list (string * B)) : bool := match assoc n t with Some _ => true | None => false end.
+
+(* per-entry facts a walker relies on without checking: the default-size table it indexes has the device,
+   and the device takes the parameter class the walker constructs *)
+Definition entry_ok (k : pdk) (g : group) (e : entry) : bool :=
+  let c := dev_class (snd e) in let n := dev_name (snd e) in
+  match k, g with
+  | Sky130, GMos => has n sky130_default_xtor_size && String.eqb c (if contains "20v" n then "Sky130Mos20VParams" else "MosParams")
+  | Sky130, GRes => (String.eqb c "Sky130GenResParams" && has n sky130_default_gen_res_size)
+                    || (String.eqb c "Sky130PrecResParams" && has n sky130_default_prec_res_L)
+  | Sky130, GCap => (String.eqb c "Sky130MimParams" || String.eqb c "Sky130VarParams") && has n sky130_default_cap_sizes
+  | Sky130, GDiode => String.eqb c "Sky130DiodeParams"
+  | Sky130, GBjt => String.eqb c "Sky130BipolarParams"
+  | Gf180, GMos => has n gf180_default_xtor_size && String.eqb c "MosParams"
+  | Gf180, GRes => has n gf180_default_res_size && String.eqb c "GF180ResParams"
+  | Gf180, GCap => String.eqb c "GF180CapParams"
+  | Gf180, GDiode => has n gf180_default_diode_size && String.eqb c "GF180DiodeParams"
+  | Gf180, GBjt => String.eqb c "GF180BipolarParams"
+  | Asap7, GMos => String.eqb c "dict"
+  | Sample, GMos => String.eqb c "SamplePdkMosParams"
+  | _, _ => false
+  end.
+
+(* sizes as the primitives' parameter classes allow them: absent, a number (Prefixed / int), or a Literal;
+   the diode area arithmetic and the sample PDK's positivity check need numbers *)
+Definition scalar_ok (o : option pv) : bool := match o with None | Some (PNum _ _) | Some (PLit _) => true | _ => false end.
+Definition num_ok (o : option pv) : bool := match o with None | Some (PNum _ _) => true | _ => false end.
+Definition prm_wf (k : pdk) (g : group) (prm : pparams) : bool :=
+  match k, g with
+  | (Sky130 | Gf180), GDiode => num_ok (pm_w prm) && num_ok (pm_l prm)
+  | (Sky130 | Gf180), GBjt => true
+  | (Sky130 | Gf180), _ => scalar_ok (pm_w prm) && scalar_ok (pm_l prm)
+  | Sample, _ => num_ok (pm_w prm) && num_ok (pm_l prm) && num_ok (pm_nf prm)
+  | Asap7, _ => true
+  end.
+
+Lemma sky_sizes_ok prm e (t : list (string * size2)) : has (dev_name (snd e)) t = true ->
+  scalar_ok (pm_w prm) = true -> scalar_ok (pm_l prm) = true -> exists wl, sky_sizes prm e t = SOk wl.
+Proof.
+  unfold sky_sizes, defaults2, has. destruct (assoc (dev_name (snd e)) t) as [[w l]|]; [|discriminate]. intros _.
+  destruct (pm_w prm) as [[]|]; destruct (pm_l prm) as [[]|]; try discriminate; intros _ _; cbn; eauto.
+Qed.
+
+Lemma gf_sizes_ok prm e (t : list (string * size2)) : has (dev_name (snd e)) t = true ->
+  (exists wl, gf_sizes prm e t = SOk wl) /\
+  (num_ok (pm_w prm) = true -> num_ok (pm_l prm) = true -> exists a b c d, gf_sizes prm e t = SOk (PNum a b, PNum c d)).
+Proof.
+  unfold gf_sizes, defaults2, has. destruct (assoc (dev_name (snd e)) t) as [[w l]|]; [|discriminate]. intros _. split.
+  - destruct (pm_w prm), (pm_l prm); cbn; eauto.
+  - destruct (pm_w prm) as [[]|]; destruct (pm_l prm) as [[]|]; try discriminate; intros _ _; cbn; unfold num_of; eauto.
+Qed.
+
+Lemma to_int_cases o : (exists v, to_int o = SOk v) \/ to_int o = SErr EBadParam.
+Proof. unfold to_int. destruct o as [[]|]; eauto. destruct ((0 <? d) && (n mod d =? 0)); eauto. Qed.
+
+Lemma positive_cases o a b : num_ok o = true ->
+  positive (or_dflt o (PNum a b)) = SOk tt \/ positive (or_dflt o (PNum a b)) = SErr EBadParam.
+Proof.
+  destruct o as [[]|]; try discriminate; intros _; cbn [or_dflt positive];
+    match goal with |- context[if ?c then _ else _] => destruct c end; auto.
+Qed.
+
+Lemma has_of_opt {B} n (t : list (string * B)) e : has n t = true -> exists v, of_opt (assoc n t) e = SOk v.
+Proof. unfold has. destruct (assoc n t); [intros _; cbn; eauto|discriminate]. Qed.
+
+(* whenever a device is selected and the per-entry facts hold, the call is built (or a parameter VALUE is rejected
+   by a descriptive ValueError) *)
+Lemma conv_total k g prm e : sel_entry k g prm = SOk e -> entry_ok k g e = true -> prm_wf k g prm = true ->
+  (exists f, conv_g k g prm = SOk (snd e, f)) \/ conv_g k g prm = SErr EBadParam.
+Proof.
+  intros H EO WF. destruct k, g; cbn [sel_entry] in H; try discriminate H; cbn [entry_ok] in EO; cbn [prm_wf] in WF; cbn [conv_g].
+  - (* Sample *) unfold sample_call. rewrite H. cbn [sbind]. apply String.eqb_eq in EO.
+    apply andb_true_iff in WF. destruct WF as [WF N3]. apply andb_true_iff in WF. destruct WF as [N1 N2].
+    destruct (positive_cases _ 1 1000000 N1) as [P1|P1]; rewrite P1; cbn [sbind]; [|auto].
+    destruct (positive_cases _ 1 1000000 N2) as [P2|P2]; rewrite P2; cbn [sbind]; [|auto].
+    destruct (positive_cases _ 1 1 N3) as [P3|P3]; unfold one; rewrite P3; cbn [sbind]; [|auto].
+    left. eexists. apply mkcall_same. exact EO.
+  - (* Sky130 Mos *) unfold sky130_call. rewrite H. cbn [sbind]. apply andb_true_iff in EO. destruct EO as [D C].
+    apply andb_true_iff in WF. destruct WF as [W1 W2]. destruct (sky_sizes_ok prm e _ D W1 W2) as [wl S]. rewrite S. cbn [sbind].
+    apply String.eqb_eq in C. left. destruct (contains "20v" (dev_name (snd e))); eexists; apply mkcall_same; exact C.
+  - (* Sky130 Res *) unfold sky130_call. rewrite H. cbn [sbind]. apply andb_true_iff in WF. destruct WF as [W1 W2].
+    apply orb_true_iff in EO. destruct EO as [EO|EO]; apply andb_true_iff in EO; destruct EO as [C D].
+    + rewrite C. destruct (sky_sizes_ok prm e _ D W1 W2) as [wl S]. rewrite S. cbn [sbind].
+      left. eexists. apply mkcall_same. apply String.eqb_eq. exact C.
+    + assert (C1 : String.eqb (dev_class (snd e)) "Sky130GenResParams" = false).
+      { apply String.eqb_eq in C. rewrite C. reflexivity. }
+      rewrite C1, C. destruct (has_of_opt _ _ EEscape D) as [v V]. rewrite V. cbn [sbind].
+      left. eexists. apply mkcall_same. apply String.eqb_eq. exact C.
+  - (* Sky130 Cap *) unfold sky130_call. rewrite H. cbn [sbind]. apply andb_true_iff in WF. destruct WF as [W1 W2].
+    destruct (to_int_cases (pm_mult prm)) as [[v T]|T]; rewrite T; cbn [sbind]; [|auto].
+    apply andb_true_iff in EO. destruct EO as [C D]. destruct (sky_sizes_ok prm e _ D W1 W2) as [wl S].
+    apply orb_true_iff in C. destruct C as [C|C].
+    + rewrite C, S. cbn [sbind]. left. eexists. apply mkcall_same. apply String.eqb_eq. exact C.
+    + assert (C1 : String.eqb (dev_class (snd e)) "Sky130MimParams" = false).
+      { apply String.eqb_eq in C. rewrite C. reflexivity. }
+      rewrite C1, C, S. cbn [sbind]. left. eexists. apply mkcall_same. apply String.eqb_eq. exact C.
+  - (* Sky130 Diode *) unfold sky130_call. rewrite H. cbn [sbind]. apply String.eqb_eq in EO.
+    apply andb_true_iff in WF. destruct WF as [W1 W2].
+    destruct (pm_w prm) as [[]|]; destruct (pm_l prm) as [[]|]; try discriminate; left; eexists; apply mkcall_same; exact EO.
+  - (* Sky130 Bjt *) unfold sky130_call. rewrite H. cbn [sbind]. apply String.eqb_eq in EO.
+    destruct (to_int_cases (pm_mult prm)) as [[v T]|T]; rewrite T; cbn [sbind]; [|auto].
+    left. eexists. apply mkcall_same. exact EO.
+  - (* Gf180 Mos *) unfold gf180_call. rewrite H. cbn [sbind]. apply andb_true_iff in EO. destruct EO as [D C].
+    destruct (proj1 (gf_sizes_ok prm e _ D)) as [wl S]. rewrite S. cbn [sbind].
+    left. eexists. apply mkcall_same. apply String.eqb_eq. exact C.
+  - (* Gf180 Res *) unfold gf180_call. rewrite H. cbn [sbind]. apply andb_true_iff in EO. destruct EO as [D C].
+    destruct (proj1 (gf_sizes_ok prm e _ D)) as [wl S]. rewrite S. cbn [sbind].
+    left. eexists. apply mkcall_same. apply String.eqb_eq. exact C.
+  - (* Gf180 Cap *) unfold gf180_call. rewrite H. cbn [sbind]. apply String.eqb_eq in EO.
+    apply andb_true_iff in WF. destruct WF as [W1 W2].
+    destruct (pm_w prm) as [[]|]; destruct (pm_l prm) as [[]|]; try discriminate; cbn [or_dflt one scale sbind];
+      left; eexists; apply mkcall_same; exact EO.
+  - (* Gf180 Diode *) unfold gf180_call. rewrite H. cbn [sbind]. apply andb_true_iff in EO. destruct EO as [D C].
+    apply andb_true_iff in WF. destruct WF as [W1 W2].
+    destruct (proj2 (gf_sizes_ok prm e _ D) W1 W2) as [a [b [c [d S]]]]. rewrite S. cbn [sbind fst snd].
+    left. eexists. apply mkcall_same. apply String.eqb_eq. exact C.
+  - (* Gf180 Bjt *) unfold gf180_call. rewrite H. cbn [sbind]. apply String.eqb_eq in EO.
+    left. eexists. apply mkcall_same. exact EO.
+  - (* Asap7 *) unfold asap7_call. rewrite H. cbn [sbind]. apply String.eqb_eq in EO. left. eexists. apply mkcall_same. exact EO.
+Qed.
+
+(* a failed selection is the walker's descriptive RuntimeError *)
+Lemma conv_sel_err k g prm x : (exists p, group_of k p = Some g) -> sel_entry k g prm = SErr x -> conv_g k g prm = SErr x.
+Proof.
+  intros [p HG] H. destruct k, g; try (destruct p; discriminate HG); cbn [sel_entry] in H; cbn [conv_g];
+    unfold sky130_call, gf180_call, asap7_call, sample_call; rewrite H; reflexivity.
+Qed.
+
+(* ================================================================ Part 4: facts of the regenerated tables *)
+Definition all_kg : list (pdk * group) :=
+  [(Sample, GMos); (Asap7, GMos);
+   (Sky130, GMos); (Sky130, GRes); (Sky130, GCap); (Sky130, GDiode); (Sky130, GBjt);
+   (Gf180, GMos); (Gf180, GRes); (Gf180, GCap); (Gf180, GDiode); (Gf180, GBjt)].
+
+Definition mapped (k : pdk) (g : group) : bool := existsb (fun kg => match kg, k, g with
+  | (Sample, GMos), Sample, GMos | (Asap7, GMos), Asap7, GMos => true
+  | (Sky130, a), Sky130, b | (Gf180, a), Gf180, b => group_eqb a b
+  | _, _, _ => false end) all_kg.
+
+Lemma group_of_mapped k p g : group_of k p = Some g -> mapped k g = true.
+Proof. destruct k, p; cbn [group_of]; intros H; inversion H; reflexivity. Qed.
+
+Lemma table_unmapped k g : mapped k g = false -> table k g = [].
+Proof. destruct k, g; cbn; try discriminate; reflexivity. Qed.
+
+(* lift a checked per-entry boolean to every entry of every mapped table *)
+Lemma tables_forall (f : pdk -> group -> entry -> bool) :
+  forallb (fun kg => forallb (f (fst kg) (snd kg)) (table (fst kg) (snd kg))) all_kg = true ->
+  forall k g e, In e (table k g) -> f k g e = true.
+Proof.
+  intros H k g e I. destruct (mapped k g) eqn:M; [|rewrite (table_unmapped _ _ M) in I; destruct I].
+  rewrite forallb_forall in H.
+  assert (IN : In (k, g) all_kg) by (destruct k, g; try discriminate M; cbn; tauto).
+  specialize (H _ IN). cbn [fst snd] in H. rewrite forallb_forall in H. apply H. exact I.
+Qed.
+
+Lemma entries_ok : forall k g e, In e (table k g) -> entry_ok k g e = true.
+Proof. apply tables_forall. vm_compute. reflexivity. Qed.
+
+(* the sample PDK looks up exactly its two keys *)
+Lemma sample_sel_ok prm : exists e, sel_entry Sample GMos prm = SOk e.
+Proof. cbn [sel_entry]. destruct (String.eqb (pm_tp prm) "MosType.PMOS"); vm_compute; eauto. Qed.
+
+(* ---------------------------------------------------------------- selection by model name *)
+Definition entry_eqb (a b : entry) : bool :=
+  strs_eqb (fst a) (fst b) && String.eqb (dev_name (snd a)) (dev_name (snd b))
+  && strs_eqb (dev_ports (snd a)) (dev_ports (snd b)) && String.eqb (dev_class (snd a)) (dev_class (snd b)).
+
+Lemma entry_eqb_eq a b : entry_eqb a b = true -> a = b.
+Proof.
+  destruct a as [ka [[na pa] ca]], b as [kb [[nb pb] cb]]. unfold entry_eqb, dev_name, dev_ports, dev_class. cbn [fst snd].
+  intros H. repeat (apply andb_true_iff in H; destruct H as [H ?]).
+  apply strs_eqb_eq in H, H1. apply str_eqb_eq in H0, H2. congruence.
+Qed.
+
+Definition model_prm (m : string) : pparams :=
+  {| pm_model := Some m; pm_tp := ""; pm_fam := ""; pm_vth := ""; pm_w := None; pm_l := None; pm_nf := None; pm_mult := None |}.
+
+Definition by_name_pdk (k : pdk) : bool := match k with Sky130 | Gf180 => true | _ => false end.
+
+Lemma sel_entry_model k g prm m : by_name_pdk k = true -> pm_model prm = Some m -> sel_entry k g prm = sel_entry k g (model_prm m).
+Proof.
+  intros K H. destruct k; try discriminate K; destruct g; cbn [sel_entry]; unfold sky_mos_module, gf_mos_module; rewrite H; reflexivity.
+Qed.
+
+(* every model name of every key selects its own entry, and every entry has at least one model name *)
+Definition names_check (k : pdk) (g : group) (e : entry) : bool :=
+  if by_name_pdk k then
+    negb (match key_names (fst e) with [] => true | _ => false end) &&
+    forallb (fun m => match sel_entry k g (model_prm m) with SOk e' => entry_eqb e e' | SErr _ => false end) (key_names (fst e))
+  else true.
+
+Lemma names_checked : forall k g e, In e (table k g) -> names_check k g e = true.
+Proof. apply tables_forall. vm_compute. reflexivity. Qed.
+
+Lemma model_name_total k g e m prm : by_name_pdk k = true -> In e (table k g) -> In m (key_names (fst e)) ->
+  pm_model prm = Some m -> sel_entry k g prm = SOk e.
+Proof.
+  intros K I M H. rewrite (sel_entry_model k g prm m K H). pose proof (names_checked k g e I) as C.
+  unfold names_check in C. rewrite K in C. apply andb_true_iff in C. destruct C as [_ C].
+  rewrite forallb_forall in C. specialize (C m M). destruct (sel_entry k g (model_prm m)) as [e'|]; [|discriminate].
+  apply entry_eqb_eq in C. congruence.
+Qed.
+
+Lemma model_name_exists k g e : by_name_pdk k = true -> In e (table k g) -> exists m, In m (key_names (fst e)).
+Proof.
+  intros K I. pose proof (names_checked k g e I) as C. unfold names_check in C. rewrite K in C.
+  apply andb_true_iff in C. destruct C as [C _]. destruct (key_names (fst e)) as [|m r]; [discriminate|]. exists m. left. reflexivity.
+Qed.
+
+(* ---------------------------------------------------------------- ports *)
+Definition ports_ok (p : prim) (e : entry) : bool :=
+  match prim_ports p with Some l => strs_eqb (dev_ports (snd e)) l | None => false end.
+
+Definition model_of (e : entry) : string := hd "" (key_names (fst e)).
+
+Definition prim_eqb (a b : prim) : bool := String.eqb (prim_name a) (prim_name b).
+Definition pdk_eqb (a b : pdk) : bool :=
+  match a, b with Sample, Sample | Sky130, Sky130 | Gf180, Gf180 | Asap7, Asap7 => true | _, _ => false end.
+
+Definition is_exc (exc : list (pdk * prim * list string)) (k : pdk) (p : prim) (m : string) : bool :=
+  existsb (fun x => pdk_eqb (fst (fst x)) k && prim_eqb (snd (fst x)) p && mem m (snd x)) exc.
+
+Definition generic_prims : list prim := [Mos; PRes; TRes; PCap; TCap; Diode; Bipolar].
+
+(* for every primitive mapped to the entry's table: the port lists agree exactly when the entry is not excepted *)
+Definition ports_check (exc : list (pdk * prim * list string)) (k : pdk) (g : group) (e : entry) : bool :=
+  forallb (fun p => match group_of k p with
+                    | Some g' => if group_eqb g g' then Bool.eqb (ports_ok p e) (negb (is_exc exc k p (model_of e))) else true
+                    | None => true end) generic_prims.
+
+Lemma ports_lift exc :
+  forallb (fun kg => forallb (ports_check exc (fst kg) (snd kg)) (table (fst kg) (snd kg))) all_kg = true ->
+  forall k p g e, group_of k p = Some g -> In e (table k g) -> ports_ok p e = negb (is_exc exc k p (model_of e)).
+Proof.
+  intros H k p g e G I. pose proof (tables_forall (ports_check exc) H k g e I) as C. unfold ports_check in C.
+  rewrite forallb_forall in C. assert (IP : In p generic_prims).
+  { destruct p; cbn; try tauto. destruct k; discriminate G. }
+  specialize (C p IP). rewrite G, group_eqb_refl in C. apply Bool.eqb_prop in C. exact C.
+Qed.
+
+(* every entry listed as an exception exists (the list names nothing that is not in the tables) *)
+Definition exc_present (exc : list (pdk * prim * list string)) : bool :=
+  forallb (fun x => let '(k, p, ms) := x in
+    match group_of k p with
+    | Some g => forallb (fun m => existsb (fun e => String.eqb (model_of e) m) (table k g)) ms
+    | None => false end) exc.
+
+(* ---------------------------------------------------------------- default sizes, device names *)
+Definition defaults_check (k : pdk) (g : group) (e : entry) : bool :=
+  match default_size k (snd e) with Some _ => true | None => false end.
+
+Lemma defaults_checked : forall k g e, In e (table k g) -> defaults_check k g e = true.
+Proof. apply tables_forall. vm_compute. reflexivity. Qed.
+
+Definition device_check (k : pdk) (g : group) (e : entry) : bool := ident_ok (dev_name (snd e)) && nodupb (dev_ports (snd e)).
+
+Lemma devices_checked : forall k g e, In e (table k g) -> device_check k g e = true.
+Proof. apply tables_forall. vm_compute. reflexivity. Qed.
+
+(* connections that name exactly the primitive's ports name exactly the device's ports when the lists agree *)
+Lemma ports_ok_exact p e conns l : prim_ports p = Some l -> ports_ok p e = true -> conns_exact l conns = true ->
+  conns_exact (dev_ports (snd e)) conns = true.
+Proof. unfold ports_ok. intros H. rewrite H. intros E. apply strs_eqb_eq in E. rewrite E. auto. Qed.
+
+(* ---------------------------------------------------------------- selection errors are the descriptive ones *)
+Lemma sel_in k g prm e : sel_entry k g prm = SOk e -> In e (table k g).
+Proof.
+  intros H. destruct k, g; cbn [sel_entry] in H; try discriminate H; cbn [table];
+    try (apply get_exact_sound in H; tauto).
+  - apply of_opt_ok in H. apply find_some in H. tauto.
+  - unfold sky_mos_module in H. apply (mos_sound sky130_xtors prm e). left. exact H.
+  - unfold gf_mos_module in H. apply (mos_sound gf180_xtors prm e). right. exact H.
+  - apply of_opt_ok in H. apply find_some in H. tauto.
+Qed.
+
+Lemma sel_err_desc k g prm x : sel_entry k g prm = SErr x -> mapped k g = true -> x = ENoDevice \/ x = EAmbiguous.
+Proof.
+  intros H M. destruct k, g; try discriminate M; cbn [sel_entry] in H;
+    [destruct (sample_sel_ok prm) as [e E]; cbn [sel_entry] in E; rewrite E in H; discriminate H|..];
+    unfold sky_mos_module, gf_mos_module, by_model, get_exact, of_opt in H;
+    repeat match type of H with context[match ?x with _ => _ end] => destruct x end; inversion H; auto.
+Qed.
+
+Lemma witness_lift (tbl : list entry) m ports :
+  existsb (fun e : entry => String.eqb (model_of e) m && strs_eqb (dev_ports (snd e)) ports) tbl = true ->
+  exists e, In e tbl /\ model_of e = m /\ dev_ports (snd e) = ports.
+Proof.
+  intros H. apply existsb_exists in H. destruct H as [e [I H]]. apply andb_true_iff in H. destruct H as [A B].
+  exists e. split; [exact I|]. split; [apply String.eqb_eq; exact A|apply strs_eqb_eq; exact B].
+Qed.
